@@ -16,7 +16,7 @@ use std::time::SystemTime;
 use veryl_analyzer::fragment_cache::{self, Fragment, FragmentWatermark};
 use veryl_analyzer::{Analyzer, CachedDiagnostic, scope, symbol_table, type_dag};
 use veryl_cache::Store;
-use veryl_metadata::Metadata;
+use veryl_metadata::{Metadata, SourceMapTarget};
 use veryl_parser::resource_table;
 use veryl_parser::resource_table::StrId;
 use veryl_path::PathSet;
@@ -140,8 +140,23 @@ impl Incremental {
         let Some(generated) = metadata.build_info.generated_files.get(&path.dst) else {
             return true;
         };
-        if !path.dst.exists() {
-            return true;
+        let mut outputs = vec![&path.dst];
+        if metadata.build.sourcemap_target != SourceMapTarget::None {
+            outputs.push(&path.map);
+        }
+        for output in outputs {
+            let Some(generated) = metadata.build_info.generated_files.get(output) else {
+                return true;
+            };
+            let Ok(written) = fs::metadata(output).and_then(|x| x.modified()) else {
+                return true;
+            };
+            // An output modified after its recorded stamp was not written by
+            // the build that recorded it (a build killed before it saved
+            // info.toml, or a manual edit), so its content is unknown.
+            if written > *generated {
+                return true;
+            }
         }
         let modified = fs::metadata(&path.src)
             .and_then(|x| x.modified())
